@@ -121,6 +121,8 @@ def check(pid, tier, only=None, jobs=None, seed=0, quiet=False):
     findings = load_findings(pid)
     open_f = [f for f in findings if f.get('status') == 'open']
     workdir = tempfile.mkdtemp(prefix='vcheck_%s_' % pid)
+    if not only:
+        shutil.rmtree(os.path.join(VERIF, 'replays', pid), ignore_errors=True)
     status = {'violations': [], 'inconclusive': [], 'harness_errors': [], 'known_seen': []}
     ev_obl = []
     samples = []
